@@ -1,9 +1,46 @@
 """C10 -- at most one transport is open per inverter and none is leaked."""
 from .protoprop import spec
+from ..runner import Stage
+
+
+def stage_inverter_transports(ctx):
+    """the inverter API END TO END (real protocol classes on the virtual-time loop, simulated inverter): after every call -- successful or failed -- of an
+    object used with keep-alive off nothing is open; with keep-alive on at most one transport.  Histories with a register block the inverter never answers
+    (the call fails) followed by calls that succeed; ET / DT / ES, UDP and Modbus/TCP"""
+    st = Stage('inverter-level-transport-monitor')
+    from .. import siminv as SI, invmon as IM
+    fams = [('ET', 8899), ('ET', 502), ('DT', 8899), ('DT', 502), ('ES', 8899)]
+    silent = {'ET': [(35100, 35224), (37000, 37023), (47547, 47552), ()], 'DT': [(30100, 30172), (30195, 30209), ()], 'ES': [()]}
+    for fam, port in fams:
+        for ka in (False, True):
+            for sil in silent[fam]:
+                goodwe = SI.reload_goodwe()
+                with SI.e2e():
+                    if fam == 'ET': inv, sim = IM.make_et(goodwe, IM.ET_SERIALS['205 three-phase'], 10000, (), 2, seed=ctx.rng.randrange(1 << 30), arm_fw=22, port=port)
+                    elif fam == 'DT': inv, sim = IM.make_dt(goodwe, IM.DT_SERIALS['three-phase'], seed=ctx.rng.randrange(1 << 30), port=port)
+                    else: inv, sim = IM.make_es(goodwe, IM.ES_SERIALS['ESU'], seed=ctx.rng.randrange(1 << 30))
+                    if ka: inv.set_keep_alive(True)
+                    calls = [('read_device_info', ()), ('read_runtime_data', ()), ('read_runtime_data', ()), ('read_setting', ('work_mode',) if fam != 'DT' else ('grid_export_limit',)),
+                             ('read_runtime_data', ()), ('get_grid_export_limit', ())]
+                    cfg = dict(family=fam, port=port, keep_alive=ka, never_answered=list(sil))
+                    for i, (meth, args) in enumerate(calls):
+                        sim.silent = [sil] if (sil and i in (1,)) else []          # the second call meets the silent block, the others are answered
+                        try: IM.run(getattr(inv, meth)(*args)); outcome = 'ok'
+                        except Exception as ex: outcome = type(ex).__name__          # noqa
+                        n_open = SI.E2E.get('open_after_return')
+                        st.case((fam, port, ka, sil, i), sample=dict(config=cfg, call=meth, outcome=outcome, open_transports=n_open) if len(st.samples) < 4 else None)
+                        if n_open is None: continue
+                        if not ka and n_open != 0:
+                            st.violation('leak', f'{fam} port {port} keep-alive off: {n_open} transport(s) still open after call {i + 1} {meth}{args} returned ({outcome}); '
+                                                 f'history: call 2 met a block the inverter never answers {list(sil)}', dict(config=cfg, call=i + 1, method=meth, outcome=outcome))
+                        if n_open > 1:
+                            st.violation('two-transports', f'{fam} port {port}: {n_open} transports open after call {i + 1} {meth}{args}', dict(config=cfg, call=i + 1))
+    return st
+
 
 SPEC = spec(
     'C10',
-    ['C10_ensure_lock_is_the_model', 'C10_tcp_close_is_the_model',
+    ['C10_keep_alive_is_set_by_the_user_only', 'C10_ensure_lock_is_the_model', 'C10_tcp_close_is_the_model',
      'C10_close_transport_is_the_model', 'C10_connection_made_is_the_model', 'C10_connection_lost_is_the_model', 'C10_eof_received_is_the_model',
      'C10_at_most_one_open_transport', 'C10_open_transport_is_referenced', 'C10_nothing_open_after_request', 'C10_nothing_open_after_close',
      'C10_close_transport_forgets', 'C10_nothing_referenced_after_request', 'C10_transport_opens', 'C10_everything_closed_at_the_end'],
@@ -26,6 +63,7 @@ SPEC = spec(
          'orphaned by a closed loop.',
     technique='Coq invariant proof (Proofs/ProtoTransport.v) over a trace-validated model + fault/close/new-loop sequence enumeration with monitors',
     design='DESIGN.md section 5 (C10)',
+    extra_stages=[stage_inverter_transports],
     level='proof',
     rule='seeded sequences of 2..4 requests / close() calls x fault letters x optional second and third event loop; recovery '
          'scenarios for every letter x UDP/TCP x keep-alive',
